@@ -38,6 +38,9 @@ RECURSIVE IotaT(_)
 IotaT(k) == IF k = 0 THEN TZero ELSE TOp2(CADD, IotaT(k - 1), TOne)
 \* horizontal add: sums of adjacent pairs of the concatenation a \o b
 HAdd(a, b) == LET s == a \o b IN [i \in 1 .. Len(a) |-> TOp2(CADD, s[2 * i - 1], s[2 * i])]
+\* the user fold: f(f(f(a1, a2), a3), ...), accumulator first, elements left to right
+RECURSIVE FoldLeftT(_, _, _)
+FoldLeftT(code, s, k) == IF k = 1 THEN s[1] ELSE TOp2(code, FoldLeftT(code, s, k - 1), s[k])
 RECURSIVE Concat(_, _)
 Concat(s, i) == IF i > Len(s) THEN <<>> ELSE s[i] \o Concat(s, i + 1)
 \* from an iterator / slice with fewer, equally many or more items than elements
